@@ -671,6 +671,9 @@ PLAN_C08 = dict(
     assume=['a removal deletes fewer than 20000 credits, i.e. it completes in one removal round after the first phase',
             'with MultiStep the removal is two model steps (RemoveStepA: phase 1, RemoveStepB: the round of phase 2) and block steps fall between them; mode "free": follower and worker run without step gates, only the final ledger is compared'],
 )
+PLAN_C07['stages'] = [lambda tier, scratch, rnd: gap_stage_c07(tier, scratch, rnd)]
+KINDS['C07'] += ['restore-failed', 'restore-other-wallet', 'restore-foreign-address', 'restore-extra', 'restore-short', 'restore-used',
+                 'restore-missed-funded', 'restore-coins']
 PROPS['C07'] = plan_check(PLAN_C07)
 PROPS['C08'] = plan_check(PLAN_C08)
 # announcements racing with a wallet import (F-C09-2 was found here): without removals the model's pending set is exact
@@ -695,18 +698,38 @@ KINDS['C12'] = KINDS['C12'] + GAP_KINDS
 GAP_TIERS = dict(
     quick=dict(mc=[{'G': '2', 'MaxIssue': '6', 'MaxBlocks': '5'}, {'G': '3', 'MaxIssue': '7', 'MaxBlocks': '4'}],
                gens=[dict(G='2', num=70, len=14), dict(G='3', num=50, len=16), dict(G='4', num=20, len=18, MaxIssue='9'), dict(G='2', num=6000, len=12, want='miss', sample=3),
-                     dict(G='2', num=1500, len=12, want='edge', sample=8), dict(G='3', num=3000, len=14, want='edge', sample=8)]),
+                     dict(G='2', num=1500, len=12, want='edge', sample=8), dict(G='3', num=3000, len=14, want='edge', sample=8),
+                     dict(G='2', num=4000, len=12, want='stale', sample=12), dict(G='3', num=6000, len=14, want='stale', sample=8)]),
     thorough=dict(mc=[{'G': '2', 'MaxIssue': '7', 'MaxBlocks': '6'}, {'G': '3', 'MaxIssue': '8', 'MaxBlocks': '5'}, {'G': '4', 'MaxIssue': '9', 'MaxBlocks': '4'}],
                   gens=[dict(G='2', num=900, len=16), dict(G='3', num=700, len=18), dict(G='4', num=400, len=20, MaxIssue='10'),
                         dict(G='5', num=200, len=24, MaxIssue='12', MaxBlocks='12'),
                         dict(G='2', num=30000, len=12, want='miss', sample=40),
-                        dict(G='2', num=10000, len=14, want='edge', sample=80), dict(G='3', num=20000, len=16, want='edge', sample=80), dict(G='4', num=30000, len=18, want='edge', sample=60, MaxIssue='10')]),
+                        dict(G='2', num=10000, len=14, want='edge', sample=80), dict(G='3', num=20000, len=16, want='edge', sample=80), dict(G='4', num=30000, len=18, want='edge', sample=60, MaxIssue='10'),
+                        dict(G='2', num=30000, len=14, want='stale', sample=80), dict(G='3', num=40000, len=16, want='stale', sample=80)]),
 )
 
 
 def gap_stage(tier, scratch, rnd):
     """returns (jobs, model runs, generator runs, states, transitions)"""
-    T = GAP_TIERS[tier]
+    return gap_stage_for(GAP_TIERS[tier], scratch, rnd)
+
+
+# C07, first clause: the restore of a mnemonic finds every address with history (issue rule / scan coupling of spec/Gap.tla),
+# on fewer histories than C12 runs
+GAP_TIERS_C07 = dict(
+    quick=dict(mc=[], reorg_mc=False, regress=False,
+               gens=[dict(G='2', num=40, len=14), dict(G='3', num=30, len=16), dict(G='4', num=15, len=18, MaxIssue='9'),
+                     dict(G='2', num=1500, len=12, want='edge', sample=6), dict(G='3', num=3000, len=14, want='edge', sample=6)]),
+    thorough=dict(mc=[], reorg_mc=False, regress=False,
+                  gens=[dict(G='2', num=400, len=16), dict(G='3', num=300, len=18), dict(G='4', num=200, len=20, MaxIssue='10'),
+                        dict(G='3', num=20000, len=16, want='edge', sample=60)]))
+
+
+def gap_stage_c07(tier, scratch, rnd):
+    return gap_stage_for(GAP_TIERS_C07[tier], scratch, rnd)
+
+
+def gap_stage_for(T, scratch, rnd):
     jobs, mc_runs, gen_runs, states, transitions = [], [], [], 0, 0
     for ov in T['mc']:
         r = vlib.tlc('MC_Gap.cfg', 'Gap.tla', scratch, overrides=ov, timeout=3000)
@@ -717,15 +740,16 @@ def gap_stage(tier, scratch, rnd):
                             invariants='RestoreFindsFunded GapInv RestoreTight (the chain only grows)'))
     # with reorganisations the restore guarantee does not follow from the issue rule: the model must still show it
     # (this is the model-level statement of known finding K-C12-1; the conformance below shows the code does the same)
-    r = vlib.tlc('MC_Gap_reorg.cfg', 'Gap.tla', scratch, timeout=1200)
-    if not (r['violated'] and 'RestoreFindsFunded' in r['violated']):
-        raise Infra('MC_Gap_reorg.cfg: expected RestoreFindsFunded to be violated once payments can be reorganised away, got %s\n%s' % (r['violated'], r['log'][-1500:]))
-    mc_runs.append(dict(cfg='MC_Gap_reorg.cfg', expected_violation='RestoreFindsFunded', wall_s=round(r['wall'], 1)))
+    if T.get('reorg_mc', True):
+        r = vlib.tlc('MC_Gap_reorg.cfg', 'Gap.tla', scratch, timeout=1200)
+        if not (r['violated'] and 'RestoreFindsFunded' in r['violated']):
+            raise Infra('MC_Gap_reorg.cfg: expected RestoreFindsFunded to be violated once payments can be reorganised away, got %s\n%s' % (r['violated'], r['log'][-1500:]))
+        mc_runs.append(dict(cfg='MC_Gap_reorg.cfg', expected_violation='RestoreFindsFunded', wall_s=round(r['wall'], 1)))
 
     def add(hist_text, src):
         h = json.loads(hist_text)
         jobs.append(dict(u={}, h=[], desc=h, mode='gap', opt={'gaphist': h}, src=src))
-    for p in sorted(glob.glob(os.path.join(vlib.ROOT, 'regress', '*.json'))):
+    for p in (sorted(glob.glob(os.path.join(vlib.ROOT, 'regress', '*.json'))) if T.get('regress', True) else []):
         rj = json.load(open(p))
         if rj.get('family') != 'gap':
             continue
